@@ -523,14 +523,16 @@ class BatchNormT(Fam):
 
     def sample_cfg(self, rng, tier):
         return {"fam": self.name, "shape": _shape2d(rng, 1, 5), "momentum": float(rng.choice([0.1, 0.5])),
-                "eps": float(rng.choice([1e-5, 1e-3]))}
+                "eps": float(rng.choice([1e-5, 1e-3])), "affine": bool(rng.random() < 0.7)}
 
     def must(self):
-        return [{"fam": self.name, "shape": [3], "momentum": 0.1, "eps": 1e-5}]
+        # affine=False is a constructor-accepted configuration (whatever the layer does with the flag, outputs and log-det agree)
+        return [{"fam": self.name, "shape": [3], "momentum": 0.1, "eps": 1e-5, "affine": True},
+                {"fam": self.name, "shape": [2], "momentum": 0.1, "eps": 1e-5, "affine": False}]
 
     def build(self, cfg):
         from nflows import transforms as T
-        return T.BatchNorm(cfg["shape"][0], eps=cfg["eps"], momentum=cfg["momentum"])
+        return T.BatchNorm(cfg["shape"][0], eps=cfg["eps"], momentum=cfg["momentum"], affine=cfg.get("affine", True))
 
     def meta(self, cfg):
         return _meta(cfg["shape"], tags=["batch_coupled_train", "stats"])
